@@ -244,7 +244,10 @@ func checkC12(c *Check) {
 		if fn == nil {
 			return
 		}
-		for _, ci := range allCalls(fn) {
+		for _, ci := range deepCalls(fn, 2) {
+			if ci.Parent() != fn && (ci.Parent() == sr.RefreshExp || recvNamed(ci.Parent()) != sr.Redis) {
+				continue // only shared helper methods of the store are looked through, not the TTL refresher
+			}
 			ce := calleeOf(ci)
 			if ce.Obj == nil || ce.Obj.Pkg() == nil || ce.Obj.Pkg().Path() != "github.com/redis/go-redis/v9" {
 				if cc, ok := ci.(*ssa.Call); ok {
